@@ -22,6 +22,7 @@ CfgHeap    == [fixed |-> FALSE, fcap |-> 0, ids |-> TRUE, drop |-> TRUE, trackca
 CfgHeapCap == [CfgHeap EXCEPT !.trackcap = TRUE]
 CfgFixed2  == [CfgHeap EXCEPT !.fixed = TRUE, !.fcap = 2]
 CfgFixed3  == [CfgHeap EXCEPT !.fixed = TRUE, !.fcap = 3]
+CfgFixed0  == [CfgHeap EXCEPT !.fixed = TRUE, !.fcap = 0]
 
 VARIABLES st,    \* the contract state
           nid,   \* number of the transition that first reached this state (hidden from the fingerprint by VIEW)
@@ -121,6 +122,24 @@ Next ==
        \/ "clone" \in Alpha /\ \E w \in Vecs \ {x} : Quiet(st, w) /\ Do([op |-> "clone_vec", v |-> x, to |-> w])
        \/ "ce_probe" \in Alpha /\ \E via \in {"same", "heap", "stack", "stackn", "fence"} : Do([op |-> "ce_probe", v |-> x, via |-> via])
        \/ "lazy" \in Alpha /\ \E i \in 0..(Len0(x) - 1) : LazyDo(x, "elem", i)
+       \/ "raw" \in Alpha /\ \E c \in BOOLEAN : Do([op |-> "raw_roundtrip", v |-> x, clone |-> c])
+       \/ "wrong" \in Alpha /\ \E ty \in {"X8", "Y8", "Z16"} :
+            \/ \E src \in {"wrapper", "raw"} :
+                 \/ Do([op |-> "push_wrong", v |-> x, src |-> src, ty |-> ty])
+                 \/ \E i \in 0..Len0(x) : Do([op |-> "insert_wrong", v |-> x, i |-> i, src |-> src, ty |-> ty])
+            \/ \E i \in 0..(Len0(x) - 1), side \in {"first", "second"} : Do([op |-> "swap_wrong", v |-> x, i |-> i, side |-> side, ty |-> ty])
+            \/ \E s0 \in 0..Len0(x), n \in 1..2 : \E j \in 1..n, e0 \in {e1 \in s0..Len0(x) : e1 <= s0 + 1} :
+                 Do([op |-> "splice_wrong", v |-> x, s |-> s0, e |-> e0, n |-> n, j |-> j, ty |-> ty])
+       \/ "downcast" \in Alpha /\ \E ty \in {"real", "X8", "Y8", "Z16", "u64", "bytes8"} :
+            \/ \E what \in {"vec_ref", "vec_mut"} : Do([op |-> "downcast_q", v |-> x, what |-> what, i |-> 0, ty |-> ty])
+            \/ \E what \in {"elem_ref", "elem_mut"}, i \in 0..(Len0(x) - 1) : Do([op |-> "downcast_q", v |-> x, what |-> what, i |-> i, ty |-> ty])
+       \/ "swap" \in Alpha /\ \E i \in 0..(Len0(x) - 1), side \in {"first", "second"} :
+            \/ \E w \in Vecs \ {x} : Quiet(st, w) /\ \E j \in 0..(Len0(w) - 1) :
+                 Do([op |-> "swap", v |-> x, i |-> i, with |-> "elem", to |-> w, j |-> j, side |-> side])
+            \/ Len(st.ext) < MaxExt /\ \E k \in {"wrapper", "typed"} : Do([op |-> "swap", v |-> x, i |-> i, with |-> k, to |-> "", j |-> 0, side |-> side])
+            \/ st.ext # <<>> /\ Do([op |-> "swap", v |-> x, i |-> i, with |-> "raw", to |-> "", j |-> 0, side |-> side])
+       \/ "spare" \in Alpha /\ \E k \in 0..2, via \in {"bytes", "typed"} :
+            Len0(x) + k <= st.v[x].cap /\ Len0(x) + k <= CapOf(x) /\ Do([op |-> "spare_write", v |-> x, k |-> k, via |-> via])
        \/ "iter" \in Alpha /\ \E kind \in {"iter", "iter_mut", "titer", "titer_mut"} :
             Do([op |-> "iter_begin", v |-> x, kind |-> kind])
   \/ \E x \in Vecs : st.v[x].h.k = "tmp" /\
@@ -128,6 +147,9 @@ Next ==
        \/ "hmutate" \in Alpha /\ MutCount = 0 /\ \E via \in {"downcast_mut", "bytes_mut"} :
             Do([op |-> "hmutate", v |-> x, via |-> via])
        \/ "lazy" \in Alpha /\ LazyDo(x, "handle", 0)
+       \/ "downcast" \in Alpha /\ \E ty \in {"real", "X8", "Y8", "Z16", "u64"} : Do([op |-> "downcast_q", v |-> x, what |-> "handle", i |-> 0, ty |-> ty])
+       \/ "swap" \in Alpha /\ \E w \in Vecs \ {x} : Quiet(st, w) /\ \E i \in 0..(Len0(w) - 1), side \in {"first", "second"} :
+            Do([op |-> "swap", v |-> w, i |-> i, with |-> "handle", to |-> x, j |-> 0, side |-> side])
   \/ \E x \in Vecs : st.v[x].h.k = "range" /\
        \/ \E end \in {"front", "back"},
              sk \in Sinks(x, IF st.v[x].h.path = "typed" THEN {"drop", "ext"}
